@@ -667,8 +667,12 @@ impl Server for GitSyncServer {
             history_segment,
         };
         let version_path = self.add_version_by_parent_version_id(&version)?;
+        #[cfg(gothenburgbitfactory_taskchampion_verif)]
+        crate::server::verif::failpoint("git.add_version.after-version-file")?;
         self.meta.latest_version = version_id;
         let meta_path = self.write_meta()?;
+        #[cfg(gothenburgbitfactory_taskchampion_verif)]
+        crate::server::verif::failpoint("git.add_version.after-meta")?;
 
         // Commit and push, reverting if push fails.
         self.git.stage_and_commit(
@@ -676,6 +680,8 @@ impl Server for GitSyncServer {
             &[&version_path, &meta_path],
             "add version",
         )?;
+        #[cfg(gothenburgbitfactory_taskchampion_verif)]
+        crate::server::verif::failpoint("git.add_version.after-commit")?;
 
         if !self.push()? {
             // Push was rejected. Undo the commit. reset_to_remote will fetch, reset --hard,
